@@ -299,6 +299,25 @@ Proof.
 Qed.
 Print Assumptions C06_clip_self.
 
+(* soundness half of the evaluator, for ANY subject polygon and ANY clip polygon: every vertex of
+   the clipped polygon is on the inner side of every edge of the clip polygon, and satisfies every
+   linear inequality that all subject vertices satisfy (it is in the subject's convex hull).  For
+   two boxes: the polygon whose area the evaluator reports lies inside both footprints.
+   (Not proved: that nothing of the intersection is missing, and the area's sign -- see above.) *)
+Theorem C06_clip_sound :
+  (forall (subj cl : list pt) (ab : pt * pt), In ab (edges cl) ->
+     forall p, In p (clip subj cl) -> 0 <= cross (fst ab) (snd ab) p) /\
+  (forall (subj cl : list pt) (a b : pt), (forall q, In q subj -> 0 <= cross a b q) ->
+     forall p, In p (clip subj cl) -> 0 <= cross a b p) /\
+  (forall e g : box, box_valid e -> box_valid g ->
+     forall p, In p (clip (rcorners e) (rcorners g)) ->
+     (forall ab, In ab (edges (rcorners g)) -> 0 <= cross (fst ab) (snd ab) p) /\
+     (forall ab, In ab (edges (rcorners e)) -> 0 <= cross (fst ab) (snd ab) p)).
+Proof.
+  split; [exact clip_within_clip|]. split; [exact clip_within_subject|exact clip_boxes_sound].
+Qed.
+Print Assumptions C06_clip_sound.
+
 (* the plane-distance evaluator used by the correspondence (corners in lowest terms) computes
    the model's plane distance and the model's left/right corner indices *)
 Theorem C06_plane_evaluator_correct : forall e g : box,
